@@ -158,6 +158,15 @@ def _foreign_overrides(path: str, class_bases: dict, class_methods: list) -> set
     return out
 
 
+# read-only accessors of the pinned tree that the rules are anchored on by name (`deme.is_active`, `problem.bounds`, ...): they
+# are left as they are; only a view ADDED later for a field the rules know by its private name is read as that field
+_PINNED_VIEWS = frozenset({"bounds", "children", "config", "durations", "id", "is_active", "level", "levels", "maximize", "n_evaluations", "started_at"})
+
+
+def _rule_anchor_names() -> frozenset:
+    return _PINNED_VIEWS
+
+
 class Program:
     """All of pyhms as parsed source."""
 
@@ -236,6 +245,37 @@ class Program:
                     returns_arg[key] = idx
         self.returns_arg = {k: v for k, v in returns_arg.items() if v is not None}
         self._raw_trees, self._class_home = raw_trees, class_home
+        # read-only views of a private field that other objects also touch by its private name (`deme.is_hibernating` next to
+        # `deme._hibernating = True`): read through the view is read of the field.  Only unambiguous names: one definition (or
+        # identical ones), a body that is just `return self.<attr>`, the name never stored to and never defined as anything else.
+        views: dict[str, str | None] = {}
+        other_defs: set[str] = set()
+        stored_names: set[str] = set()
+        foreign_private: set[str] = set()
+        for raw in raw_trees.values():
+            for x in ast.walk(raw):
+                if isinstance(x, ast.Attribute):
+                    if isinstance(x.ctx, (ast.Store, ast.Del)):
+                        stored_names.add(x.attr)
+                    if x.attr.startswith("_") and not x.attr.startswith("__") and not (isinstance(x.value, ast.Name) and x.value.id in ("self", "cls")):
+                        foreign_private.add(x.attr)
+                if isinstance(x, ast.ClassDef):
+                    for b in x.body:
+                        if isinstance(b, (ast.Assign, ast.AnnAssign)):
+                            for t_ in (b.targets if isinstance(b, ast.Assign) else [b.target]):
+                                if isinstance(t_, ast.Name):
+                                    other_defs.add(t_.id)
+                        if not isinstance(b, ast.FunctionDef):
+                            continue
+                        decos = {norm(d) for d in b.decorator_list}
+                        body_ = [y for y in b.body if not (isinstance(y, ast.Expr) and isinstance(y.value, ast.Constant))]
+                        selfn_ = b.args.args[0].arg if b.args.args else None
+                        if decos == {"property"} and len(body_) == 1 and isinstance(body_[0], ast.Return) and isinstance(body_[0].value, ast.Attribute) and isinstance(body_[0].value.value, ast.Name) and body_[0].value.value.id == selfn_ and body_[0].value.attr.startswith("_"):
+                            a_ = body_[0].value.attr
+                            views[b.name] = a_ if views.get(b.name, a_) == a_ else None
+                        else:
+                            other_defs.add(b.name)
+        self.field_views = {k: v for k, v in views.items() if v is not None and k not in other_defs and k not in stored_names and v in foreign_private and k not in _rule_anchor_names()}
         for p in files:
             rel = p.relative_to(self.repo_root)
             parts = list(rel.with_suffix("").parts)
@@ -249,6 +289,11 @@ class Program:
                 raise AnalysisError(f"cannot parse {rel}: {e}") from e
             if os.environ.get("HMSLINT_NO_NORMALIZE") != "1":
                 from .normalize import normalize_module
+
+                if self.field_views:
+                    for x in ast.walk(tree):
+                        if isinstance(x, ast.Attribute) and isinstance(x.ctx, ast.Load) and x.attr in self.field_views and not (isinstance(x.value, ast.Name) and x.value.id in ("self", "cls")):
+                            x.attr = self.field_views[x.attr]
 
                 try:
                     tree = normalize_module(tree, inherited=self._inherited_helpers(p, tree), returns_arg=self.returns_arg, foreign_refs=set().union(*[v for k, v in refs_by_file.items() if k != str(p)]) if refs_by_file else set(), foreign_defs=_foreign_overrides(str(p), class_bases, class_methods))
